@@ -199,7 +199,7 @@ func c16(c *Ctx) {
 								bad = append(bad, f.Name()+"() at "+c.pos(x.Pos()))
 							}
 						case *ssa.Return:
-							if len(x.Results) == 1 && !an.MayBeNilConst(an.RetVal(x, 0)) {
+							if len(x.Results) == 1 && !an.MayReturnNil(x, 0) {
 								o := tr.OriginString(an.RetVal(x, 0))
 								d := an.NewDeps(nil).Of(an.RetVal(x, 0))
 								if !d.Has("MTProto).MakeRequest") && !d.Has("MTProto).makeRequest") { // only a failed acknowledgement may be returned
